@@ -136,6 +136,15 @@ impl Engine for ListEng {
     fn canon_op(o: &Value) -> Value {
         o.clone()
     }
+    fn op_a_view(o: &Value) -> Value {
+        // WHICH identifier an insert gets is the allocation strategy (layer B, Identifier::between); layer A only
+        // says what is inserted / which element is deleted.  A wrong identifier shows up in the reads (C12, C13).
+        if o["kind"] == "ins" {
+            json!({"kind": "ins", "val": o["val"], "tag": o["id"].as_array().and_then(|a| a.last()).map(|n| n[1].clone())})
+        } else {
+            o.clone()
+        }
+    }
     fn validate_op(s: &Self::S, o: &Self::O) -> String {
         match s.validate_op(o) {
             Ok(()) => "Ok".into(),
@@ -230,6 +239,10 @@ impl Engine for GListEng {
     }
     fn canon_op(o: &Value) -> Value {
         o.clone()
+    }
+    fn op_a_view(o: &Value) -> Value {
+        // layer A: the element inserted (the marker of the identifier's last node), not the identifier itself
+        json!({"elem": o["id"].as_array().and_then(|a| a.last()).map(|n| n[1].clone())})
     }
     fn validate_op(s: &Self::S, o: &Self::O) -> String {
         match s.validate_op(o) {
